@@ -243,8 +243,9 @@ def generate():
     o.append("")
     o.append("(* unfold every generated constant (used by proof scripts before calling lia) *)")
     names = list(defined)
-    o.append("Ltac gen_enums_unfold :=\n  cbv delta [\n    %s ] in *." % "\n    ".join(
-        " ".join(names[i:i + 6]) for i in range(0, len(names), 6)))
+    body = "\n    ".join(" ".join(names[i:i + 6]) for i in range(0, len(names), 6))
+    o.append("Ltac gen_enums_unfold :=\n  cbv delta [\n    %s ] in *." % body)
+    o.append("Ltac gen_enums_unfold_goal :=\n  cbv delta [\n    %s ]." % body)
     o.append("")
     return "\n".join(o) + "\n", {"enumerators": len(enum_names), "macros": len(macro_list) + len(EXTRA_EXPRS)}
 
